@@ -44,7 +44,7 @@ TB = "_b._tcp.local."
 MDNS = "224.0.0.251"
 D30_SIG = "C17:close-from-tracked-browser-callback-thread-raises"
 D31_SIG = "C17:untracked-thread-browser-delivers-queue-after-close"
-D32_SIG = "C17:overlapping-sync-closes-raise"
+D34_SIG = "C17:overlapping-sync-closes-raise"
 
 
 class RTTransport(asyncio.DatagramTransport):
@@ -630,7 +630,7 @@ def untracked_thread_browser_scenario(case):
 
 
 def concurrent_close_scenario(case):
-    """**D32's input class** when `thread_backed`: `n_threads` threads call `close()` at (nearly) the same time on an instance
+    """**D34's input class** when `thread_backed`: `n_threads` threads call `close()` at (nearly) the same time on an instance
     with a registered service.  (Loop-backed: the same from executor threads; no loop thread to stop.)  Safeguard timeouts
     shortened to 0.4 s."""
     from zeroconf import Zeroconf
@@ -665,7 +665,7 @@ def concurrent_close_scenario(case):
             # one stopped the loop under it.  Only on an instance that owns its loop thread, only these exceptions.
             if case["thread_backed"] and s[0] in ("C17:close-call-raises:EventLoopBlocked", "C17:close-call-raises:TimeoutError",
                                                   "C17:close-call-raises:AttributeError"):
-                bad.append((D32_SIG, s[1]))
+                bad.append((D34_SIG, s[1]))
             else:
                 bad.append(s)
 
@@ -756,7 +756,7 @@ def run(res, ctx, violate):
     """all thread scenarios (a fixed set + seed-chosen parameters); ~10 s of wall time"""
     import logging
 
-    logging.getLogger("asyncio").setLevel(logging.CRITICAL)   # "Task was destroyed but it is pending" of loops stopped under a pending close (D32)
+    logging.getLogger("asyncio").setLevel(logging.CRITICAL)   # "Task was destroyed but it is pending" of loops stopped under a pending close (D34)
     acc = []
     for case in gen_cases(ctx["seed"]):
         bad, calls = run_one(case, with_calls=True)
